@@ -16,6 +16,12 @@
  *                    finalises it, its destructor ALLOCATES a new managed object and publishes it (see Q)
  *   Q<fid>=<lid><K>,<place>  what the finaliser of F-node fid does: new node lid of kind K (S or W),
  *                    published into place = K (a stack slot) | T<s> (TLS entry k<s>) | P<h>.<i> (field i of node h)
+ *   B<c>,<m>,<n>,<first>  bulk build: container c receives n FRESH probe structs (ids first..first+n-1) that are
+ *                    allocated WHILE the container operation consumes its argument and are referenced from
+ *                    nowhere else (no stack slot): m = c: concat(c, map(range(n), make)) for A L U (the iterable
+ *                    allocates one managed object per element, so threshold collections run in the middle of the
+ *                    concat); m = a: assign(c, map(...)) for A L (c is emptied first); m = s: for T E Y Z a loop
+ *                    of  x = make(); set(c, key, value)  with key first+i (T E: Int key -> Ref x; Y Z: Ref x -> Int)
  *   C<id>=<src>      new node = copy(src) (registered; src is S R A L T E or U)
  *   P<id>.<i>=<t>    pointer store: field i of S (0,1), the pointer of R / B (i = 0)
  *   I<id>,<k>=<t>    insert: A L U push (k ignored); T E set key k -> Ref to t; Y Z set key Ref to t -> k
@@ -192,6 +198,36 @@ static void __attribute__((noinline)) op_copy(long id, long src) {
   p = NULL;
 }
 
+/* element factory of the bulk operations: called by Map's iterator once per element */
+static long BNEXT, BLEFT;
+static var bulk_make(var args) {
+  if (BLEFT <= 0) { note("bulkoverrun"); return NULL; }
+  long id = BNEXT++; BLEFT--;
+  op_new(id, 'S', 0);            /* alloc(Probe): GC_Set, possibly a threshold collection */
+  keep_drop(id);                 /* referenced only by what the caller does with the return value */
+  return nptr(id);
+}
+
+static void __attribute__((noinline)) op_bulk(long c, char mode, long n, long first) {
+  var p = nptr(c);
+  BNEXT = first; BLEFT = n;
+  switch (KIND[c]) {
+    case 'A': case 'L': case 'U':
+      if (mode == 'a') assign(p, map(range($I(n)), $(Function, bulk_make)));
+      else concat(p, map(range($I(n)), $(Function, bulk_make)));
+      break;
+    case 'T': case 'E':
+      for (long i = 0; i < n; i++) { var x = bulk_make(NULL); set(p, $I(first + i), $R(x)); x = NULL; }
+      break;
+    case 'Y': case 'Z':
+      for (long i = 0; i < n; i++) { var x = bulk_make(NULL); set(p, $R(x), $I(first + i)); x = NULL; }
+      break;
+    default: note("badbulk");
+  }
+  if (BLEFT != 0) note("bulkcount");
+  p = NULL;
+}
+
 static void __attribute__((noinline)) op_store(long id, long i, long t) {
   var p = nptr(id); var q = nptr(t);
   switch (KIND[id]) {
@@ -363,6 +399,8 @@ static void __attribute__((noinline)) exec_tok(char* tok, int* nobs) {
     case 'N': { long id = strtol(tok + 1, &e, 10); char k = *e; int root = e[1] == '!';
       op_new(id, k, root); break; }
     case 'C': { long id = strtol(tok + 1, &e, 10); long src = strtol(e + 1, &e, 10); op_copy(id, src); break; }
+    case 'B': { long c = strtol(tok + 1, &e, 10); char m = e[1]; long n = strtol(e + 3, &e, 10); long first = strtol(e + 1, &e, 10);
+      op_bulk(c, m, n, first); break; }
     case 'Q': { long id = strtol(tok + 1, &e, 10); long lid = strtol(e + 1, &e, 10); char k = *e; char pl = e[2];
       ensure(id > lid ? id : lid);
       QLATE[id] = lid; QKIND[id] = k; QPLACE[id] = pl;
@@ -396,6 +434,8 @@ static void one_case_body(char* line) {
   long mx = 16;
   for (char* s = line; *s; s++) {
     if (*s == 'N' || *s == 'C') { long v = strtol(s + 1, NULL, 10); if (v > mx) mx = v; }
+    if (*s == 'B') { char* q; strtol(s + 1, &q, 10); long n = strtol(q + 3, &q, 10); long f = strtol(q + 1, &q, 10);
+                     if (f + n > mx) mx = f + n; }
     if (*s == '=' ) { long v = strtol(s + 1, NULL, 10); if (v > mx) mx = v; }      /* late ids of Q */
   }
   CAP = 0; LED = NULL; KIND = NULL; DEAD = NULL; ROOTF = NULL; FIN = NULL; MAXID = 0;
